@@ -108,6 +108,7 @@ const (
 
 const KBig = 1 << 40
 const KName = "kn"
+const KOn, KOff = true, false
 const KTyped int32 = -5
 
 // ---- types ----
